@@ -5,6 +5,7 @@ From Coq Require Import List NArith ZArith Bool.
 From PV Require Import Base.Bytes Base.Lit Base.Json Base.Utf8 Model.Hexdump Spec.DumpFormats Gen.Tables.
 From PV Require Import Extract.ApiIo.
 From PV Require Import Extract.ApiPel.
+From PV Require Extract.ApiCli.
 From PV Require Extract.ApiHw.
 From PV Require Extract.ApiTrace.
 Import ListNotations.
@@ -33,7 +34,8 @@ Definition run (cmd : text) (args : list bytes) : text :=
     render (jstrs (render1 (if Nat.eqb (nat_arg (arg 0 args)) 0 then hexdigU else hexdigL) (arg 1 args)))
   else if is_cmd cmd (L "render2") then
     render (jstrs (render2 (if Nat.eqb (nat_arg (arg 0 args)) 0 then hexdigU else hexdigL) (arg 1 args)))
-  else match run_io cmd args with Some t => t | None =>
-       match run_pel cmd args with Some t => t | None =>
-       match ApiHw.run_hw cmd args with Some t => t | None =>
-       match ApiTrace.run_trace cmd args with Some t => t | None => L """unknown command""" end end end end.
+  else match run_pel cmd args with Some t => t | None =>
+       match ApiCli.run_cli cmd args with Some t => t | None =>
+       match run_io cmd args with Some t => t | None =>
+       match ApiTrace.run_trace cmd args with Some t => t | None =>
+       match ApiHw.run_hw cmd args with Some t => t | None => L """unknown command""" end end end end end.
